@@ -21,10 +21,19 @@
          (random programs: only size <= G for the CHECKED Fun program, whose nodes carry type annotations with
           arbitrarily deep type arguments, e.g. Pair[Pair[i64, i64], Pair[..]])
        - PROVED bounds (Props/C19.v), evaluated on the REAL outputs:
-           C19_focus_size_partial  fs_wprog focused <= 4 * c_wprog core  (proved up to the renaming pass uniquify)  [VIOL class=proved-bound:focus]
+           C19_fun2core_size   size_cprog core <= size_fcprog checked * (10 + 2 * fun_occ checked)   [VIOL class=proved-bound:fun2core]
+                               c_wprog core    <= f_wprog checked * (12 + 3 * fun_occ checked)       [VIOL class=proved-bound:fun2core-weighted]
+           C19_focus_size      fs_wprog focused <= 4 * c_wprog core                                  [VIOL class=proved-bound:focus]
            C19_shrink_size     ax_size shr <= w * ((2 + X*(2+A)) + 2*(1+X)*w), w = fs_wprog focused   [VIOL class=proved-bound:shrink]
            C19_linearize_size  ax_size lin <= 2 * ax_size shr + 3 * stmts shr * (1 + width shr)     [VIOL class=proved-bound:linearize]
-       - PROVED shape of the code-generation bound with the calibrated (not proved) unit cost K = 16:
+           C19_pipeline_ax_size  ax_size lin <= pipeline_ax_bound checked   (composition; very loose)  [VIOL class=proved-bound:pipeline]
+           C19_x86_compile_size  x86 instructions without COMMENT pseudo-instructions (4th code entry)
+                               <= 30 + x86_K * cg_bound_defs lin, when sub_wf_prog lin                 [VIOL class=proved-bound:x86]
+           C19_a64_compile_size, C19_rv_compile_size  likewise (5th / 6th code entry):
+                               <= 28 + a64_K * cg_bound_defs lin, <= rv_K * cg_bound_defs lin          [VIOL class=proved-bound:a64 / rv]
+                               (sub_wf_prog lin = false: the precondition, which the linear discipline guarantees, fails
+                                on a real output                                                      [VIOL class=codegen-precondition:sub_wf])
+       - PROVED shape of the code-generation bound with the calibrated (not proved) unit cost K = 16 (AArch64; x86-64 incl. comments):
            instructions <= 16 * cg_bound_defs lin   for x86-64 and AArch64                  [VIOL class=codegen-bound:<arch>]
        - stated (unproved or partly proved) polynomial bounds with calibrated constants:
            size core    <= 12 * size checked * (1 + vars)                                   [VIOL class=size-ratio:fun2core]
@@ -34,7 +43,7 @@
        Tags: nt, the label, ratio buckets. *)
 From Coq Require Import List ZArith NArith String Bool.
 From SCC Require Import Base.Sexp Lang.SynUtil Lang.FunSyn Lang.CoreSyn Lang.AxSyn Lang.AxSize Lang.FsSize Lang.CoreSize
-     Model.RunBase Model.Fun2Core Model.SizeDefs.
+     Model.RunBase Model.Fun2Core Model.SizeDefs Model.SizeFun Model.SizeWf.
 Import ListNotations.
 Open Scope string_scope.
 Open Scope N_scope.
@@ -163,20 +172,47 @@ Definition prog_case (label : string) (k : N) (gs codes vals : list sexp) : verd
             end in
           let info := " " ++ label ++ " k" ++ n_to_string k in
           let shr_bound := s_fs * ((2 + prog_X pfs * (2 + prog_A pfs)) + 2 * (1 + prog_X pfs) * s_fs) in
-          if shr_bound <? s_s then VViol ("class=proved-bound:shrink size=" ++ n_to_string s_s ++ " bound=" ++ n_to_string shr_bound ++ info)
+          let f2c_n := f2c_bound_nodes pf in
+          let f2c_w := f2c_bound_weighted pf in
+          if f2c_n <? s_c then VViol ("class=proved-bound:fun2core core=" ++ n_to_string s_c ++ " bound=" ++ n_to_string f2c_n ++ " occ=" ++ n_to_string (fun_occ pf) ++ info)
+          else if f2c_w <? c_wprog pc then VViol ("class=proved-bound:fun2core-weighted core=" ++ n_to_string (c_wprog pc) ++ " bound=" ++ n_to_string f2c_w ++ info)
+          else if pipeline_ax_bound pf <? s_l then VViol ("class=proved-bound:pipeline linearized=" ++ n_to_string s_l ++ info)
+          else if shr_bound <? s_s then VViol ("class=proved-bound:shrink size=" ++ n_to_string s_s ++ " bound=" ++ n_to_string shr_bound ++ info)
           else if lin_bound <? s_l then VViol ("class=proved-bound:linearize size=" ++ n_to_string s_l ++ " bound=" ++ n_to_string lin_bound ++ info)
           else if 12 * s_f * (1 + vars) <? s_c then VViol ("class=size-ratio:fun2core source=" ++ n_to_string s_f ++ " vars=" ++ n_to_string vars ++ " core=" ++ n_to_string s_c ++ info)
           else if 4 * c_wprog pc <? s_fs then VViol ("class=proved-bound:focus core=" ++ n_to_string (c_wprog pc) ++ " focused=" ++ n_to_string s_fs ++ info)
           else if 8 * (1 + xt) * s_fs * (1 + width) <? s_s then VViol ("class=size-ratio:shrink focused=" ++ n_to_string s_fs ++ " shrunk=" ++ n_to_string s_s ++ info)
           else
           match codes with
-          | [cx; ca; cr] =>
-              match code_viol "x86" cx, code_viol "a64" ca with
-              | Some w, _ | None, Some w => VViol (w ++ info)
-              | None, None =>
+          | cx :: ca :: cr :: more =>
+              let proved (arch : string) (bound : N) (c : option sexp) : option string :=
+                match c with
+                | Some cxn =>
+                    match getN cxn with
+                    | Some n =>
+                        if negb (sub_wf_prog pl) then Some "class=codegen-precondition:sub_wf the linearized program has a Substitute with repeated ids"
+                        else if bound <? n then Some ("class=proved-bound:" ++ arch ++ " instructions=" ++ n_to_string n ++ " bound=" ++ n_to_string bound)
+                        else None
+                    | None => None
+                    end
+                | None => None
+                end in
+              let x86_proved : option string :=
+                match proved "x86" (x86_bound pl) (nth_error more 0) with
+                | Some w => Some w
+                | None => match proved "a64" (a64_bound pl) (nth_error more 1) with
+                          | Some w => Some w
+                          | None => proved "rv" (rv_bound pl) (nth_error more 2)
+                          end
+                end in
+              match x86_proved, code_viol "x86" cx, code_viol "a64" ca with
+              | Some w, _, _ | None, Some w, _ | None, None, Some w => VViol (w ++ info)
+              | None, None, None =>
                   VOk ("nt prog " ++ label ++ " size" ++ bucket s_f ++ " vars" ++ bucket (1 + vars)
-                       ++ ratio_tag "core" s_c s_f ++ ratio_tag "foc" s_fs s_c ++ ratio_tag "shr" s_s s_fs ++ ratio_tag "lin" s_l s_s
+                       ++ (if occ_scoped pf then " scoped" else " UNSCOPED")
+                       ++ ratio_tag "core" s_c s_f ++ " occ" ++ bucket (1 + fun_occ pf) ++ ratio_tag "f2cb" f2c_n (1 + s_c) ++ ratio_tag "foc" s_fs s_c ++ ratio_tag "shr" s_s s_fs ++ ratio_tag "lin" s_l s_s
                        ++ match getN cx with Some n => ratio_tag "x86cg" n cgb | None => " x86panic" end
+                       ++ match more with cxn :: _ => match getN cxn with Some n => ratio_tag "x86nc" n cgb | None => "" end | [] => "" end
                        ++ match getN ca with Some n => ratio_tag "a64cg" n cgb | None => " a64panic" end
                        ++ match getN cr with Some _ => "" | None => " rvpanic" end)
               end
